@@ -5,6 +5,7 @@
 // input : <A> <B> <scalar hex> <accuracy A hex> <accuracy B hex>
 //         A, B = comma separated 64-bit patterns, or - for the empty fitness
 // output: lt eq gt ge le ne dom mm nanA finA plus minus times divs muls abs sqrt round dist comb
+//         small nonneg ae aes   (issmall(A) isnonnegative(A) almost_equal(A,B) almost_equal(A,B,scalar))
 //         (booleans 0/1; vectors as the input; X = the function's Expects
 //          contract is not met by the arguments, the function is not called)
 #include "common.h"
@@ -93,7 +94,14 @@ int main()
     else
       o << "X ";
 
-    o << show_fit(combine(a, b));
+    o << show_fit(combine(a, b)) << ' ';
+
+    // utility.h scalars lifted to fitness_t: issmall, isnonnegative, almost_equal
+    o << issmall(a) << ' ' << isnonnegative(a) << ' ';
+    if (a.size() == b.size())
+      o << almost_equal(a, b) << ' ' << almost_equal(a, b, s);
+    else
+      o << "X X";
     std::cout << o.str() << std::endl;
   }
   return 0;
